@@ -31,6 +31,9 @@ func genC05Map(rng *simkit.Rand, p *simkit.Plan, idx int) {
 	p.SetC("kind", int64(idx/3%2)) // memory, leveldb
 	p.SetC("counters", 1)
 	if rng.Chance(1, 3) {
+		p.SetC("ldbcounters", 1) // judge the LevelDB counters at every reload (else at the last one only)
+	}
+	if rng.Chance(1, 3) {
 		// offsets spread over hundreds of GiB (only meaningful in the 5-byte-offset build: the fifth byte differs between neighbours)
 		p.SetC("bigoff", 1)
 	}
@@ -245,7 +248,11 @@ func execC05Map(r *simkit.Run) {
 					return
 				}
 			}
-			if before != after && repeated {
+			if before != after && kind != storage.NeedleMapInMemory && (overwrote || deleted) && p.C("ldbcounters") != 1 && i != len(p.Steps)-1 {
+				// the recorded LevelDB recount finding would end the run at its first reload after any
+				// overwrite or delete; two thirds of the runs judge the counters at the final reload only
+				r.Probe("leveldb-counters-judged-at-the-final-reload")
+			} else if before != after && repeated {
 				// a repeated deletion appends another tombstone to the index file, which every loader
 				// counts again; what the counters should be then is not part of the statement
 				r.Probe("counters-not-compared-after-repeated-delete")
